@@ -86,7 +86,7 @@ theorem respell_eq_map (t : Text) : respell t = t.flatMap canon := by
 /-- **typed and canonical spellings parse alike**: rewriting any `'`→`ˈ`, `,`→`ˌ`, `:`→`ː`, `;`→`ː.` in the text
     beforehand changes nothing -/
 theorem parseWord_respelled (t t' : Text) (h : t.flatMap canon = t'.flatMap canon) : parseWord t = parseWord t' := by
-  unfold parseWord
+  unfold parseWord parseWordWith
   rw [respell_eq_map, respell_eq_map, h]
 
 example : parseWord ("pa'ta:".toList.map Char.toNat) = parseWord ("paˈtaː".toList.map Char.toNat) := by
